@@ -61,9 +61,15 @@ class AsyncPathIOContext:
         self.close = functools.partial(self.pathio.close, self.file)
         return self
 
-    async def __aexit__(self, *args):
+    async def __aexit__(self, exc_type, exc, tb):
         if self.close is not None:
-            await self.close()
+            try:
+                await self.close()
+            except errors.PathIOError:
+                # do not mask exception (e.g. cancellation) which is
+                # already propagating with failure of close
+                if exc_type is None:
+                    raise
 
     def __await__(self):
         return self.__aenter__().__await__()
